@@ -122,12 +122,12 @@ ND.__getitem__ = _nd_get
 
 def load_filters(extra=None, decimal=True):
     symex.FLOAT_AS_DECIMAL = decimal
-    subs = dict(np=FNP, int=symex.int_type, range=srange, min=smin, max=smax, len=slen)
+    subs = dict(np=FNP, int=symex.int_type, float=symex.float_type, range=srange, min=smin, max=smax, len=slen)
     if extra:
         subs.update(extra)
     ns = loader.load_unit('filters', subs, name='filters_under_test')
     # Fbank instantiates MelScaling itself: it must be the scales module loaded on the same symbolic numpy
-    sc = loader.load_unit('scales', dict(np=FNP, max=smax, min=smin), name='scales_under_test')
+    sc = loader.load_unit('scales', dict(np=FNP, max=smax, min=smin, float=symex.float_type), name='scales_under_test')
     ns['MelScaling'] = sc['MelScaling']
     # mutable class-level state (a cache declared on the class is shared by all instances and would otherwise survive from
     # one explored path to the next): remembered as loaded, restored by reset_class_state() at the start of every path
